@@ -314,6 +314,8 @@ func alphabet(tier string) []Step {
 	if tier == "thorough" {
 		a = append(a,
 			c("t2", "sf", "", "d1", "", "enabled"),
+			c("t2", "sb", "", "d1", "", "enabled"),
+			u("t2", func(q *Req) { q.DBRPs = "d2" }),
 			c("t1", "sx", "", "d1", "", ""),
 			u("t2", func(q *Req) { q.Status = "enabled" }),
 			u("t2", func(q *Req) { q.Status = "disabled"; q.NewID = "t1" }),
@@ -360,6 +362,9 @@ func scenarios() [][]Step {
 		// start failures: created while the cluster is down, restart while up / down
 		{Step{Kind: "env", Up: false}, c("t1", "sf", "", "d1", "", "enabled"), restartStep, Step{Kind: "env", Up: true}, up(Req{ID: "t1", Status: "enabled"}), restartStep, Step{Kind: "env", Up: false}, restartStep},
 		{ct("p1", "q1"), c("t1", "", "p1", "d1", "", "enabled"), c("t2", "", "p1", "d1", "", "enabled"), Step{Kind: "env", Up: false}, ut("p1", "qf", ""), Step{Kind: "env", Up: true}, ut("p1", "qf", ""), Step{Kind: "env", Up: false}, restartStep},
+		// batch task whose query is outside its dbrps: the definition is accepted, the start fails
+		{c("t1", "sb", "", "d2", "", "enabled"), up(Req{ID: "t1", DBRPs: "d1"}), restartStep, up(Req{ID: "t1", DBRPs: "d2"}), up(Req{ID: "t1", Status: "disabled"}), up(Req{ID: "t1", Status: "enabled"}), restartStep, R(Req{Op: "DeleteTask", ID: "t1"})},
+		{c("t1", "sb", "", "d1", "", "enabled"), up(Req{ID: "t1", DBRPs: "d2"}), up(Req{ID: "t1", NewID: "t2"}), restartStep},
 		// delete and re-create template: documented orphans
 		{ct("p1", "q1"), c("t1", "", "p1", "d1", "", "enabled"), R(Req{Op: "DeleteTpl", ID: "p1"}), up(Req{ID: "t1", Status: "disabled"}), ct("p1", "q2"), up(Req{ID: "t1", Status: "disabled"}), ut("p1", "q1", "")},
 		// --- crash inside a request, restart on that copy, and go on ---
@@ -456,7 +461,7 @@ func Run(r *rt.Run) error {
 
 	maxLen, crashThenLen, nRandom, randLen := 3, 2, 150, 12
 	if r.Thorough() {
-		maxLen, crashThenLen, nRandom, randLen = 4, 3, 3000, 16
+		maxLen, crashThenLen, nRandom, randLen = 4, 2, 2000, 16
 	}
 	alpha := alphabet(r.Tier)
 	stats := map[string]int{}
